@@ -42,6 +42,9 @@ def run(chk: Check, proj: Project) -> None:
     s6(chk, proj, w)
     s7_own_backend(chk, proj)
     s8_key_fields(chk, proj)
+    s11_kind_flow(chk, proj, w)
+    s12_served_iff_announced(chk, proj, w)
+    s13_status_survives_middleware(chk, proj, w)
 
 
 def s8_key_fields(chk: Check, proj: Project, rule: str = "S8") -> None:
@@ -520,8 +523,148 @@ def s9_stored_text(chk: Check, proj: Project) -> None:
                f"`{short(c)}` stores a transformed text (`{norm(v)}`): the body served under the announced URL is no longer exactly the component's JS / CSS (whitespace inside a JS template literal or a CSS `content:` string is rewritten)")
 
 
+def s11_kind_flow(chk: Check, proj: Project, w, rule: str = "S11") -> None:
+    chk.rule(rule, "kind flow: every place that demands one script kind (Media(js=..) / Media(css=..), a callee's ScriptType argument, a wire key or keyword that names a kind, a value chosen under a test of the CSS / JS placeholder constant) receives only values of that kind (abstract interpretation of the dependency module with the kind lattice {js, css}; sources are ScriptType arguments, render_js / render_css and callee summaries), and no kind-carrying result of a helper is dropped")
+    from ..kindflow import KindFlow
+
+    dm = proj.mod("dependencies")
+    kf = KindFlow(proj, w.cg, dm)
+    n = 0
+    for q, fn in sorted(dm.defs.items()):
+        if not isinstance(fn, ast.FunctionDef) or isinstance(getattr(fn, "parent", None), (ast.FunctionDef, ast.ClassDef)):
+            continue
+        sk = kf.sinks(fn)
+        if sk:
+            chk.analysed(fkey(dm, fn))
+        seen = set()
+        for s_ in sk:
+            n += 1
+            key = f"dependencies:{s_.key}"
+            if key in seen:
+                key += f"#{sum(1 for k in seen if k.startswith(key)) + 1}"
+            seen.add(key)
+            chk.ob(rule, key, dm.loc(s_.node), s_.ok,
+                   f"`{short(s_.expr, 70)}` carries {sorted(s_.got) or 'no kind'}; the sink takes {s_.want}" if s_.ok else
+                   f"`{short(s_.expr, 90)}` can carry {sorted(t_ for t_ in s_.got if t_ in ('js', 'css') and t_ != s_.want)} values but is handed to {s_.what}, which takes {s_.want}: a script URL / tag of the other kind is announced as {s_.want} (e.g. a `.js` URL in a <link rel=stylesheet>, served as text/javascript), and the {s_.want} it displaced is not announced at all",
+                   detail={"want": s_.want, "got": sorted(s_.got)})
+        for nm_, k in kf.unpacked_unused(fn):
+            chk.violated(rule, f"dependencies:{q}:{nm_.id}:result-used", dm.loc(nm_), f"`{nm_.id}` receives the {sorted(k)} part of a helper's result and is never read: those scripts are collected but never announced / inserted")
+    chk.paths += kf.n_eval
+    chk.floor(rule, n, 12)
+
+
+def _response_ctor_status(proj: Project, dm, e: ast.AST):
+    """HTTP status class a `return X(...)` produces, for the response constructors the view uses."""
+    nm_ = last_attr(e.func) if isinstance(e, ast.Call) else None
+    table = {"HttpResponseNotFound": 404, "HttpResponseNotAllowed": 405, "HttpResponse": 200, "HttpResponseBadRequest": 400, "HttpResponseForbidden": 403, "HttpResponseGone": 410}
+    if nm_ in table:
+        st = table[nm_]
+        sk = kwarg(e, "status") if isinstance(e, ast.Call) else None
+        if sk is not None:
+            ok, v = proj.try_fold(dm, sk)
+            st = v if ok else None
+        return st
+    return None
+
+
+def s12_served_iff_announced(chk: Check, proj: Project, w, rule: str = "S12") -> None:
+    chk.rule(rule, "the endpoint refuses (404) only for the reasons emission knows about: the class hash is not in comp_hash_mapping, the kind is not a served kind, or the script is not in the cache - every other test on a 404 exit (a predicate over the class, the registry, settings ...) withholds a script whose URL the render announced, unless the same predicate also guards the caching / emission side")
+    dm = proj.mod("dependencies")
+    f = dm.func("cached_script_view")
+    chk.analysed(fkey(dm, f))
+    vps = params(f)
+    # locals with a reviewed provenance: the mapping lookup and the cache lookup
+    prov: Dict[str, str] = {}
+    for st in stmts(f):
+        if isinstance(st, ast.Assign) and len(st.targets) == 1 and isinstance(st.targets[0], ast.Name) and isinstance(st.value, ast.Call):
+            c = st.value
+            if isinstance(c.func, ast.Attribute) and c.func.attr == "get" and norm(c.func.value) == "comp_hash_mapping":
+                prov[st.targets[0].id] = "mapping"
+            elif last_attr(c.func) == "get_script_content":
+                prov[st.targets[0].id] = "cache"
+    if set(prov.values()) != {"mapping", "cache"}:
+        raise AnalysisError(f"C19-{rule}: the view's two lookups were not found ({prov})")
+    # predicates the emission side applies to a class (so the view may apply them too)
+    emit_preds: Set[str] = set()
+    for fn in ("_prepare_tags_and_urls", "cache_component_js", "cache_component_css"):
+        for c in calls(dm.func(fn)):
+            if isinstance(c.func, ast.Name):
+                emit_preds.add(c.func.id)
+    nf = [s for s in stmts(f) if isinstance(s, ast.Return) and isinstance(s.value, ast.Call) and (_response_ctor_status(proj, dm, s.value) or 0) >= 400 and _response_ctor_status(proj, dm, s.value) != 405]
+    chk.floor(rule, len(nf), 2)
+    for r in nf:
+        def atom_ok(e: ast.AST) -> bool:
+            if isinstance(e, ast.UnaryOp) and isinstance(e.op, ast.Not):
+                return atom_ok(e.operand)
+            if isinstance(e, ast.BoolOp):
+                return all(atom_ok(v) for v in e.values)
+            t = norm(e)
+            if "req.method" in t or "request.method" in t:
+                return True
+            if isinstance(e, ast.Compare) and len(e.ops) == 1:
+                l, rr = e.left, e.comparators[0]
+                if isinstance(e.ops[0], (ast.Is, ast.IsNot)) and isinstance(l, ast.Name) and l.id in prov and isinstance(rr, ast.Constant) and rr.value is None:
+                    return True
+                if isinstance(e.ops[0], (ast.In, ast.NotIn)) and isinstance(l, ast.Name) and l.id in vps and isinstance(rr, ast.Name) and rr.id in ("_CONTENT_TYPES", "comp_hash_mapping"):
+                    return True
+            if isinstance(e, ast.Name) and e.id in prov:
+                return True
+            if isinstance(e, ast.Call) and isinstance(e.func, ast.Name) and e.func.id in emit_preds:
+                return True
+            return False
+
+        extra = [(norm(e), pol) for e, pol in flatten_conj(path_conditions(r)) if not atom_ok(e)]
+        # only conditions that can SELECT this exit matter: negated earlier guards (pol False of an exiting if) are the
+        # complement of reviewed exits; keep those whose atom is not one of the reviewed forms
+        chk.ob(rule, f"dependencies:cached_script_view:{short(r, 40)}:only-known-reasons", dm.loc(r), not extra,
+               "this refusal depends only on the hash lookup, the kind table and the cache lookup" if not extra else
+               f"this {_response_ctor_status(proj, dm, r.value)} exit is also selected by `{'` / `'.join(('' if p_ else 'not ') + t_ for t_, p_ in extra)}` - a condition neither the caching nor the URL-emitting side tests: a component that is rendered (so its script is cached and its URL announced) but fails this test, e.g. one rendered through its class without being registered, gets 404 for the URL the page just told the browser to load")
+
+
+def s13_status_survives_middleware(chk: Check, proj: Project, w, rule: str = "S13") -> None:
+    chk.rule(rule, "the status the view chose is the status the client sees: the library's own middleware returns the response object it was given (its content may be rewritten in place) - a newly constructed response must be given the original's status_code")
+    dm = proj.mod("dependencies")
+    mw = dm.cls("ComponentDependencyMiddleware")
+    n = 0
+    for fn in [x for x in mw.body if isinstance(x, (ast.FunctionDef, ast.AsyncFunctionDef))]:
+        ps = params(fn)
+        if len(ps) < 2 or fn.name == "__init__":
+            continue
+        # which parameter / local is "the response": parameters named in a return, or locals assigned from get_response
+        resp_names = {p_ for p_ in ps[1:] if any(isinstance(r, ast.Return) and r.value is not None and p_ in names_in(r.value) for r in ast.walk(fn))}
+        for st in ast.walk(fn):
+            if isinstance(st, ast.Assign) and len(st.targets) == 1 and isinstance(st.targets[0], ast.Name) and any(isinstance(c, ast.Call) and ("get_response" in norm(c.func) or last_attr(c.func) in {m_.name for m_ in mw.body if isinstance(m_, (ast.FunctionDef, ast.AsyncFunctionDef))}) for c in ast.walk(st.value)):
+                resp_names.add(st.targets[0].id)
+        chk.analysed(f"{dm.name}:ComponentDependencyMiddleware.{fn.name}")
+        for r in [x for x in ast.walk(fn) if isinstance(x, ast.Return) and x.value is not None]:
+            v = r.value
+            if isinstance(v, ast.Await):
+                v = v.value
+            n += 1
+            if isinstance(v, ast.Name) and v.id in resp_names:
+                chk.holds(rule, f"dependencies:ComponentDependencyMiddleware.{fn.name}:{short(r, 40)}", dm.loc(r), "returns the response object it received")
+                continue
+            if isinstance(v, ast.Call) and (last_attr(v.func) in {m_.name for m_ in mw.body if isinstance(m_, (ast.FunctionDef, ast.AsyncFunctionDef))} or "get_response" in norm(v.func)):
+                chk.holds(rule, f"dependencies:ComponentDependencyMiddleware.{fn.name}:{short(r, 40)}", dm.loc(r), "returns what the wrapped step returned")
+                continue
+            if isinstance(v, (ast.Name, ast.Call)):
+                # a fresh response: how was it built, and is its status copied from the original?
+                defs_ = [x for _s, x in assignments(fn, v.id) if x is not None] if isinstance(v, ast.Name) else [v]
+                vid = v.id if isinstance(v, ast.Name) else "<returned expression>"
+                fresh = [d for d in defs_ if isinstance(d, ast.Call) and (last_attr(d.func) or "").endswith("Response")]
+                if fresh:
+                    copied = any(isinstance(s_, ast.Assign) and norm(s_.targets[0]) == f"{vid}.status_code" and any(norm(s_.value) == f"{rn}.status_code" for rn in resp_names) for s_ in ast.walk(fn)) or \
+                        any(kwarg(d, "status") is not None and any(norm(kwarg(d, "status")) == f"{rn}.status_code" for rn in resp_names) for d in fresh)
+                    chk.ob(rule, f"dependencies:ComponentDependencyMiddleware.{fn.name}:{short(r, 40)}", dm.loc(fresh[0]), copied,
+                           "the rebuilt response takes the original's status_code" if copied else
+                           f"`{short(fresh[0])}` builds a NEW response (status 200) in place of the one the view returned and never copies `status_code`: the script endpoint's 404 (unknown class / kind / missing script) and 405 (non-GET) - empty text/html responses, so they take this path - reach the client as 200")
+                    continue
+            chk.undecided(rule, f"dependencies:ComponentDependencyMiddleware.{fn.name}:{short(r, 40)}", dm.loc(r), f"cannot tell whether `{short(v)}` is the response that was passed in")
+    chk.floor(rule, n, 2)
+
+
 MANIFEST = {
-    "text": "Decides the structural chain that makes an emitted script URL resolvable: cachers dominate the render's exit and precede emission; presence is re-asked of the backend each time; writer / presence test / reader agree on the cache key; URL kwargs, view parameters and URL patterns agree and the class hash cannot contain the separators; the view's 405/404 exits precede anything that can raise on request data; emission and caching use the same predicate. Also: js/css twin functions agree up to the kind, more specific routes first, the class hash is md5 of the unmodified import path and assigned for every class, no memo in front of the cache backend, and the own backend's entry limit is effective. Round 4 / triage: a request value bound to a raising callee's parameter has its own 404 exit, the URL is built by reverse(), cache-key fields are unchanged. Round 5: the library's middleware leaves the script view's own content types alone (prefix test evaluated against the content-type table). Round 6: the cached text is the script (at most stripped at its ends); every is_nonempty_str decision asks the inheritance-aware attribute, never the class's own media record. Round 7: builtins that validate a request value cannot raise out of the view; a test that names a kind looks at that kind's attribute.",
+    "text": "Decides the structural chain that makes an emitted script URL resolvable: cachers dominate the render's exit and precede emission; presence is re-asked of the backend each time; writer / presence test / reader agree on the cache key; URL kwargs, view parameters and URL patterns agree and the class hash cannot contain the separators; the view's 405/404 exits precede anything that can raise on request data; emission and caching use the same predicate. Also: js/css twin functions agree up to the kind, more specific routes first, the class hash is md5 of the unmodified import path and assigned for every class, no memo in front of the cache backend, and the own backend's entry limit is effective. Round 4 / triage: a request value bound to a raising callee's parameter has its own 404 exit, the URL is built by reverse(), cache-key fields are unchanged. Round 5: the library's middleware leaves the script view's own content types alone (prefix test evaluated against the content-type table). Round 6: the cached text is the script (at most stripped at its ends); every is_nonempty_str decision asks the inheritance-aware attribute, never the class's own media record. Round 7: builtins that validate a request value cannot raise out of the view; a test that names a kind looks at that kind's attribute. Round 8: kind flow - an abstract interpretation of the dependency module over the lattice {js, css} (sources: ScriptType arguments, render_js / render_css, callee summaries; sinks: Media(js=/css=), ScriptType-keyed helpers, wire keys, placeholder replacements) shows every announced URL / tag is announced under its own kind and none is dropped; the view's 404 exits depend only on facts the emitting side also depends on (hash lookup, kind table, cache lookup, emission predicates); the library's middleware hands back the response object it received or copies its status.",
     "note": "Trusted: django.urls.reverse and path converters; the cache backend keeps what is set until evicted. Not decided: that served bytes equal the component's code over histories with evictions.",
-    "technique": "dominator-based ordering, sibling/table agreement, alphabet domain",
+    "technique": "dominator-based ordering, sibling/table agreement, alphabet domain, js/css kind-flow abstract interpretation",
 }
